@@ -55,10 +55,10 @@ func (p *protoPeer) VerifReadStatus(nw types.Network, genesis *types.GenesisInfo
 	return p.readStatus(new(handshakeData), nw, genesis)
 }
 
-func (p *protoPeer) VerifId() peer.ID                { return p.id }
-func (p *protoPeer) VerifKnownHeight() uint64        { return p.knownHeight.Read() }
+func (p *protoPeer) VerifId() peer.ID                  { return p.id }
+func (p *protoPeer) VerifKnownHeight() uint64          { return p.knownHeight.Read() }
 func (p *protoPeer) VerifManifest() *snapshot.Manifest { return p.Manifest() }
-func (p *protoPeer) VerifDisconnectReason() string   { return p.disconnectReason }
+func (p *protoPeer) VerifDisconnectReason() string     { return p.disconnectReason }
 func (p *protoPeer) VerifQueued() (int, int, int, int) {
 	return len(p.queuedRequests), len(p.highPriorityRequests), len(p.pushQueue), len(p.flipKeyQueue)
 }
@@ -68,11 +68,17 @@ func (p *protoPeer) VerifQueued() (int, int, int, int) {
 func (b *batch) VerifHeaders() chan *block { return b.headers }
 func (b *batch) VerifCap() int             { return cap(b.headers) }
 
-func (fs *fullSync) VerifProcessBatch(b *batch, attempt int) error { return fs.processBatch(b, attempt) }
-func (fs *fullSync) VerifDeferred() int                             { return len(fs.deferredHeaders) }
+func (fs *fullSync) VerifProcessBatch(b *batch, attempt int) error {
+	return fs.processBatch(b, attempt)
+}
+func (fs *fullSync) VerifDeferred() int { return len(fs.deferredHeaders) }
 
-func (fs *fastSync) VerifPreConsuming(head *types.Header) (uint64, error) { return fs.preConsuming(head) }
-func (fs *fastSync) VerifProcessBatch(b *batch, attempt int) error        { return fs.processBatch(b, attempt) }
-func (fs *fastSync) VerifDropPreliminaries()                              { fs.dropPreliminaries() }
+func (fs *fastSync) VerifPreConsuming(head *types.Header) (uint64, error) {
+	return fs.preConsuming(head)
+}
+func (fs *fastSync) VerifProcessBatch(b *batch, attempt int) error {
+	return fs.processBatch(b, attempt)
+}
+func (fs *fastSync) VerifDropPreliminaries() { fs.dropPreliminaries() }
 
 func (d *Downloader) VerifBestManifest() *snapshot.Manifest { return d.getBestManifest() }
